@@ -250,6 +250,20 @@ example : (((Disk.init 24 12).run (exOps ++ [.aofClose, .setRunId "id2"])).reade
     (Disk.init 24 12).wf (exOps ++ [.aofClose, .setRunId "id2"]) := by decide
 example : ((Disk.init 24 12).run exOps).inRange 105 = false ∧ ((Disk.init 24 12).run exOps).inRange 125 = true := by decide
 
+/-- non-vacuity of the snapshot theorems: a script with a snapshot (written in two
+    chunks), a snapshot reader that replays it, the stream that follows at the
+    snapshot's offset, rotation and a collector pass -/
+def exSnapOps : List DOp :=
+  [.setRunId "id1", .newRdbWriter 100 4, .rdbAppend [1, 2], .openReader 0 100 true, .read 0 2, .rdbAppend [3, 4],
+   .read 0 8, .newAofWriter 100, .aofAppend [11, 12, 13, 14, 15, 16, 17, 18, 19], .aofAppend [20, 21], .gc]
+
+example : (Disk.init 24 0).wf exSnapOps := by decide
+example : ((Disk.init 24 0).run exSnapOps).getRdb = (100, 4) := by decide
+example : (((Disk.init 24 0).run exSnapOps).readers.map (fun r => (r.isAof, r.isOpen, r.pos, r.out))) =
+    [(false, true, 4, [1, 2, 3, 4])] := by decide
+example : ((Disk.init 24 0).run exSnapOps).inRange 100 = true ∧ ((Disk.init 24 0).run exSnapOps).all ≠ [] := by decide
+
+
 /-! ## Memory backend
 
     The memory theorems are step-level: they hold for EVERY state `s : Mem` (no
